@@ -210,8 +210,11 @@ class Run:
             ops = threads[0][:pre]
             threads = [threads[0][pre:]] + threads[1:]
             r = lib.call_with_deadline(self._autoclose_block, 900.0, ops, host)
-            if r[0] == 'hung' and self.side_hang:
-                s.probe('autoclose-block-hung-after-a-constructor-hang')
+            if r[0] == 'hung' and (self.side_hang or s.clock_mode == 'adversarial'):
+                # liveness is claimed under a responsive clock only.  (Seen with VERIF_SEED=2: the server - itself a registered
+                # worker - stalled for 7 s, so that the block's terminate(timeout=0.1) escalated to SIGKILL; the orphaned, stuck
+                # backend kept the control socket open and wait(timeout=0.1) on its parent-side worker waited for an answer for ever.)
+                s.probe('autoclose-block-hung:' + ('after-a-constructor-hang' if self.side_hang else 'adversarial-clock'))
             elif r[0] != 'ok':
                 self.viol('autoclose', f'autoclose-block-{r[0]}:{type(r[1]).__name__ if r[1] is not None else None}')
             else:
